@@ -10,7 +10,11 @@ cd "$root"
 case "$patch" in /*) ;; *) patch="$root/$patch";; esac
 if ! git -C "$repo" diff --quiet; then echo "repo dirty, refusing"; exit 3; fi
 if ! git -C "$repo" apply "$patch"; then echo "patch does not apply: $patch"; exit 3; fi
+# the evidence file describes the unchanged tree: keep it out of the way of the mutant run
+ev="$root/evidence/$id.json"; bak="$root/.build/evidence-$id.keep.$$"
+mkdir -p "$root/.build"; [ -f "$ev" ] && cp "$ev" "$bak"
 out=$(./check "$id" "$tier" 2>&1); rc=$?
 git -C "$repo" checkout -- .
+if [ -f "$bak" ]; then mv "$bak" "$ev"; fi
 echo "$out" | grep -E "VIOLATION|KNOWN-FINDING|INCONCLUSIVE|HELD" | head -8
 if [ $rc -eq 1 ]; then echo "CAUGHT $id $(basename $patch) tier=$tier"; else echo "MISSED $id $(basename $patch) tier=$tier rc=$rc"; fi
